@@ -154,6 +154,7 @@ def coefficients_formula(rep, prog, rule):
             return best
         _verdict(rep, rule, "kernel-argument", c.at, arg, expect,
                  "the argument of the kernel for source pixel x", P)
+    window_arguments(rep, prog, rule)
     # 4. filter scale
     vals = set()
     for (bb, j, rv, whole) in f.defs().get(fs_l, []):
@@ -169,6 +170,65 @@ def coefficients_formula(rep, prog, rule):
         rep.bad(rule, "filter-scale", f.loc, "filter_scale takes the values %s; the property needs "
                 "max((in1 - in0) / out_size, 1) for adaptive kernels and 1 otherwise" % [
                     show(dict(v)) for v in vals])
+
+
+def window_arguments(rep, prog, rule):
+    """call sites of precompute_coefficients: in0 = crop.left (top), in1 - in0 = crop.width
+    (height) of the same crop box"""
+    from .validators import subst as esubst
+    n = 0
+    for g in sorted(prog.fns.values(), key=lambda z: z.id):
+        for c in g.calls():
+            if not c.name.endswith("precompute_coefficients") or len(c.args) < 4:
+                continue
+            n += 1
+            rep.touch(g)
+            gs = Sym(g)
+            args = [gs.operand(a, (c.bb, "term")) for a in c.args[:4]]
+            if g.kind == "closure":
+                parent = prog.fns.get(g.d.get("parent"))
+                caps = None
+                if parent is not None:
+                    ps = Sym(parent)
+                    for b, blk in enumerate(parent.blocks):
+                        for j, st in enumerate(blk["s"]):
+                            if st[0] == "a" and st[2][0] == "agg" and st[2][1] == "closure" \
+                                    and st[2][2] == g.id:
+                                caps = [ps.operand(o, (b, j)) for o in st[2][4]]
+                if caps is not None:
+                    p1 = ("param", 1, g.local_name(1))
+                    mapping = {("field", p1, i): ce for i, ce in enumerate(caps)}
+                    args = [esubst(a, mapping) for a in args]
+                    P = Poly(Sym(parent))
+                else:
+                    P = Poly(gs)
+            else:
+                P = Poly(gs)
+            in0, in1 = P.norm(args[1]), P.norm(args[2])
+            key = "%s|window-arguments" % g.name
+            if in0 is None or in1 is None:
+                rep.unk(rule, key, c.at, "arguments do not normalise (%s)" % P.failed)
+                continue
+            span = p_add(in1, in0, -1)
+
+            def single_field(p):
+                if len(p) == 1:
+                    (m, cc), = p.items()
+                    if cc == 1 and len(m) == 1 and m[0][0] == "f" and "crop_box" in m[0][1]:
+                        return m[0]
+                return None
+            a0, asp = single_field(in0), single_field(span)
+            pairs = {("left", "width"), ("top", "height")}
+            crop_only = all(a[0] == "f" and "crop_box" in a[1] for a in atoms_of(in0) | atoms_of(in1))
+            if a0 and asp and (a0[2], asp[2]) in pairs and a0[1] == asp[1]:
+                rep.ok(rule, key, c.at, "in0 = crop.%s, in1 - in0 = crop.%s" % (a0[2], asp[2]))
+            elif crop_only:
+                rep.bad(rule, key, c.at, "the source interval handed to precompute_coefficients is "
+                        "[%s, %s): the property needs [left, left + width) resp. [top, top + height) "
+                        "of the crop box" % (show(in0)[:80], show(in1)[:100]))
+            else:
+                rep.unk(rule, key, c.at, "in0 = %s, in1 = %s" % (show(in0)[:80], show(in1)[:80]))
+    rep.floor(rule, "precompute_coefficients calls", n, 2)
 
 
 def _deep_iter_atoms(p):
@@ -384,3 +444,69 @@ def fit_formula(rep, prog, rule):
         else:
             rep.unk(rule, nm, f.loc, "%s = %s: shape not recognised" % (nm, show(act)[:140]))
     rep.floor(rule, "margin expressions", n, 2)
+
+
+def quantise(rep, prog, rule):
+    rep.rule(rule, "Normalizer16::new / Normalizer32::new multiply every weight by (1 << p) where p "
+             "is the very value stored as the normaliser's precision (the kernels shift the "
+             "accumulator right by that precision): a different exponent scales every result by a "
+             "power of two")
+    n = 0
+    for nm in ("convolution::optimisations::Normalizer16::new",
+               "convolution::optimisations::Normalizer32::new"):
+        f = prog.fn_by_name(nm)
+        rep.touch(f)
+        sym = Sym(f)
+        stored = None
+        for b, blk in enumerate(f.blocks):
+            for j, st in enumerate(blk["s"]):
+                if st[0] == "a" and st[2][0] == "agg" and st[2][1] == "adt" and "Normalizer" in st[2][2] \
+                        and st[2][4]:
+                    stored = sym.operand(st[2][4][0], (b, j))
+        # the closure that converts a weight
+        conv = None
+        for g in f.closures():
+            gs = Sym(g)
+            for (bb, j, rv, w) in g.defs().get(0, []):
+                e = gs.rvalue(rv, bb, (bb, j))
+                s = fmt(e)
+                if "Mul" in s and ("arg1.0" in s or "arg1" in s):
+                    conv = (g, e)
+        key = nm.rsplit("::", 2)[-2]
+        if stored is None or conv is None:
+            rep.unk(rule, key, f.loc, "anchors not found (stored precision / weight conversion)")
+            continue
+        n += 1
+        g, e = conv
+        # captured scale in the parent
+        caps = None
+        for b, blk in enumerate(f.blocks):
+            for j, st in enumerate(blk["s"]):
+                if st[0] == "a" and st[2][0] == "agg" and st[2][1] == "closure" and st[2][2] == g.id:
+                    caps = [sym.operand(o, (b, j)) for o in st[2][4]]
+        if not caps:
+            rep.unk(rule, key, f.loc, "captures of the conversion closure not found")
+            continue
+        sc = caps[0]
+        while sc[0] == "cast":
+            sc = sc[2]
+        if sc[0] == "ovf":
+            sc = sc[1]
+        if not (sc[0] == "bin" and sc[1] == "Shl" and sc[2][0] == "const" and sc[2][1] == 1):
+            rep.unk(rule, key, f.loc, "scale = %s: not of the form 1 << p" % fmt(caps[0])[:80])
+            continue
+        p = sc[3]
+        while p[0] == "cast":
+            p = p[2]
+        st_ = stored
+        while st_[0] == "cast":
+            st_ = st_[2]
+        if p == st_:
+            rep.ok(rule, key, f.loc, "weights scaled by 1 << %s, stored precision %s" % (fmt(p), fmt(st_)))
+        elif p[0] in ("bin", "ovf") and fmt(st_) in fmt(p):
+            rep.bad(rule, key, f.loc, "weights are scaled by 1 << (%s) but the normaliser stores "
+                    "precision %s: the kernels shift by a different amount than the weights were "
+                    "scaled with" % (fmt(p), fmt(st_)))
+        else:
+            rep.unk(rule, key, f.loc, "scale exponent %s vs stored precision %s" % (fmt(p), fmt(st_)))
+    rep.floor(rule, "normaliser constructors", n, 2)
